@@ -123,6 +123,17 @@ theorem C11_refines (clash : List String) (ops : List Op) (root : KV)
     absKV (runC clash ops root) = runS ops (absKV root) ∧ canonKV clash (runC clash ops root) = true :=
   run_refines clash ops root hc hs
 
+/-- `ns.update(value, key, only_unset)` (a Namespace `value`) is the sequence of its leaf assignments, hence it
+    refines the dictionary that assigns every leaf of `value` below `key` (only the absent ones when `only_unset`) -/
+theorem C11_update_refines (clash : List String) (value : KV) (pre : List String) (onlyUnset : Bool) (root : KV)
+    (hc : canonKV clash root = true)
+    (hs : safe clash (updateOps onlyUnset pre (itemsSegs false value)) root = true) :
+    absKV (updateSegs clash value pre onlyUnset root)
+      = runS (updateOps onlyUnset pre (itemsSegs false value)) (absKV root)
+    ∧ canonKV clash (updateSegs clash value pre onlyUnset root) = true := by
+  rw [updateSegs_eq_runC]
+  exact run_refines clash _ root hc hs
+
 /-- names that coincide with Namespace's own method names are stored and returned like any other name -/
 theorem C11_clash (clash : List String) (name : String) (v : V) (root : KV)
     (hc : canonKV clash root = true) :
@@ -171,7 +182,9 @@ example :
     let clash := Jap.Gen.clashNames
     let root : KV := [(mark clash "a", .ns [(mark clash "keys", .atom 1)]), (mark clash "items", .lst [.atom 2])]
     canonKV clash root = true ∧
-    safe clash [.set ["a", "get"] "pop" (.atom 3), .del ["a"] "keys", .pop [] "items"] root = true := by decide
+    safe clash [.set ["a", "get"] "pop" (.atom 3), .del ["a"] "keys", .pop [] "items", .setU ["a"] "x" (.atom 4)] root = true
+    ∧ safe clash (updateOps true ["a"] (itemsSegs false [(mark clash "values", .ns [(mark clash "b", .atom 7)])])) root = true := by
+  decide
 
 /-! ## the full statement fails through dict values (open finding C11-through-dict) -/
 
